@@ -389,7 +389,7 @@ func WorkerMain(args []string) int {
 			continue
 		}
 		runOne(idx)
-		if time.Since(c.lastFlush) > 500*time.Millisecond {
+		if n < 2000 || time.Since(c.lastFlush) > 200*time.Millisecond {
 			c.flush(done, skipped, false)
 			done, skipped = 0, 0
 		}
@@ -805,7 +805,7 @@ func ParentMain(id, tier string) int {
 		fmt.Printf("VIOLATION property=%s replay=%s\n", id, path)
 		fmt.Printf("  sig: %s\n  what: %s\n  occurrences: %d\n", s, v.What, g.count)
 	}
-	exhaustive := !p.inexh && p.skipped == 0 && len(p.harnessErr) == 0
+	exhaustive := !p.inexh && p.skipped == 0 && len(p.harnessErr) == 0 && p.restarts == 0
 	cov := map[string]interface{}{
 		"evaluations":         p.evals,
 		"distinct_nontrivial": p.nt,
